@@ -22,8 +22,10 @@ fn main() -> ExitCode {
         "C04" => rosu_verif::c04::run(tier, seed, only),
         "C06" => rosu_verif::c06::run(tier, seed, only),
         "C07" => rosu_verif::c07::run(tier, seed, only),
+        "C08" => rosu_verif::c08::run(tier, seed, only),
         "C14" => rosu_verif::c14::run(tier, seed, only),
         "C15" => rosu_verif::c15::run(tier, seed, only),
+        "C17" => rosu_verif::c17::run(tier, seed, only),
         "C18" => rosu_verif::c18::run(tier, seed, only),
         "C19" => rosu_verif::c19::run(tier, seed, only),
         "C20" => rosu_verif::c20::run(tier, seed, only),
